@@ -254,7 +254,12 @@ pub fn board_control_writes_via_bus() {
         e.daisr = p.daisr & !I_FF;
     } else {
         match byte >> 6 {
-            0 => e.dasr = (p.dasr & !7) | (byte & 7),           // UOR: output levels
+            0 => {
+                // UOR: levels driven by the program on its output pins.  The property only speaks about
+                // externally applied changes, so only the frame is asserted: nothing but the three UIO
+                // status bits may change.
+                e.dasr = (p.dasr & !7) | (bus.board().verif_parts().dasr & 7);
+            }
             1 => {}                                              // nothing
             2 => e.uio_dir = [byte & 1 != 0, byte & 2 != 0, byte & 4 != 0], // UDR
             _ => {
